@@ -860,7 +860,11 @@ int WaitForMessage(rfbClient* client,unsigned int usecs)
   if (client->serverPort==-1)
     /* playing back vncrec file */
     return 1;
-  
+
+  /* what ReadFromRFBServer has read ahead will never make the socket readable */
+  if (client->buffered > 0)
+    return 1;
+
   timeout.tv_sec=(usecs/1000000);
   timeout.tv_usec=(usecs%1000000);
 
